@@ -113,8 +113,16 @@ func (r *vrunner) fill() {
 	if !r.slow {
 		return
 	}
-	for i := 0; i < cap(r.midiOut); i++ {
+	// the idle reader takes the first filler at once and then sleeps: one more than the queue holds, and topped up until
+	// the queue is full at the moment the device is called
+	for i := 0; i < cap(r.midiOut)+1; i++ {
 		r.midiOut <- sinkFiller
+	}
+	for len(r.midiOut) < cap(r.midiOut) {
+		select {
+		case r.midiOut <- sinkFiller:
+		default:
+		}
 	}
 	if r.sigAck != nil {
 		select {
